@@ -43,6 +43,9 @@ func HarnessC12Number() {
 	switch form {
 	case 0:
 		sp = vfDigits("d", n, false, true)
+	case 6: // long decimal integers (no separators): values beyond 2^53
+		sp = vfDigits("d", n, false, false)
+		form = 0
 	case 1:
 		sp = append(sp, '0')
 		if vfBool("upperX") {
